@@ -49,7 +49,8 @@ def _url(rng):
     host = rng.choice(['example.test', 'Example.TEST', 'a.b-c.example.test',
                        'localhost', '10.1.2.3'])
     port = rng.choice([None, None, 80, 443, 8080, 65535, 1])
-    path = rng.choice(['', '/', '/chat', '/a/b/c.d', '/p%20q', '/a//b/'])
+    path = rng.choice(['', '', '/', '/chat', '/a/b/c.d', '/p%20q', '/a//b/',
+                       u'/caf\u00e9', u'/\u4e2d\u6587'])
     query = rng.choice(['', '', 'x=1', 'a=1&b=%2F', 'q'])
     url = ('wss' if secure else 'ws') + '://' + host
     if port is not None:
@@ -82,7 +83,8 @@ def _attempt(rng, first, size_edge=False):
             a['status'] = 200
     elif r < 0.85:
         a['upgrade'] = rng.choice([None, 'h2c', 'websocket2', 'web socket',
-                                   'websocke', ''])
+                                   'websocke', '', '{websocket}', '{}', '{0}',
+                                   'websocket}', '{'])
     elif r < 0.92:
         a['block'] = rng.choice([16383, 16384, 16385, 20000])
         a['terminated'] = rng.random() < 0.6
@@ -110,7 +112,8 @@ def make_case(family, i, rng, tier):
                                    ['Cookie', 'a=b; c=d']],
                                   [['Origin', 'http://example.test']]])
     case['compress'] = rng.random() < 0.4
-    case['agent'] = rng.choice([None, None, 'TestAgent/1.0 (x; y)'])
+    case['agent'] = rng.choice([None, None, 'TestAgent/1.0 (x; y)',
+                                u'Agent \u20ac \u0416'])
     n = rng.choice([1, 1, 1, 2, 3, 5]) if family == 'seeded' else 1
     case['attempts'] = [_attempt(rng, k == 0, family == 'size_edge')
                         for k in range(n)]
@@ -242,7 +245,7 @@ def _check_request(res, case, req_bytes, key_draws, k):
     u = urlparse(case['url'])
     port = u.port or (443 if u.scheme == 'wss' else 80)
     resource = (u.path or '/') + (('?' + u.query) if u.query else '')
-    if r.target.decode('latin-1') != resource:
+    if r.target != resource.encode('utf-8'):
         res.bad(tag + 'target', 'GET %r for url %s' % (r.target, case['url']))
     host = r.get(b'Host')
     if host is None or host.decode('latin-1').lower() != '%s:%d' % (
@@ -302,7 +305,7 @@ def _check_request(res, case, req_bytes, key_draws, k):
                         k, n, allowed.get(k, 0), case.get('headers')))
             break
     if case.get('agent'):
-        if r.get(b'User-Agent') != case['agent'].encode():
+        if r.get(b'User-Agent') != case['agent'].encode('utf-8'):
             res.bad(tag + 'agent', '%r' % r.get(b'User-Agent'))
     return key
 
